@@ -118,7 +118,7 @@ pub fn record_program(name: &str, src: &str, full: bool, rng: &mut Rng, trace: &
         Option::None => return,
     };
     let n = tree.nodes.len();
-    trace.push(&json!({"k": "tree", "src": name, "tree": tree.to_json()}));
+    trace.push(&json!({"k": "tree", "src": name, "tree": tree.to_json(), "text": src}));
     let all_names: Vec<&str> = all_targets().iter().map(|(n, _)| *n).collect();
     // roots: the file, every contract, every function, and a sample of statements / expressions
     let mut roots = vec![1usize];
